@@ -102,6 +102,7 @@ def run(ctx):
     if rc_e != 0:
         evo_fail.append("generated-code scenario exited %d: %s" % (rc_e, err_e[-1500:]))
     recs = {}
+    nruns = 0
     for l in out_e.split("\n"):
         t = l.split(" ", 2)
         if len(t) >= 2:
@@ -113,16 +114,24 @@ def run(ctx):
         ra = d.get("readA", "").split(" ", 2)[-1]; rb = d.get("readB", "").split(" ", 2)[-1]
         if ra != rb:
             evo_fail.append("%s: shared fields read differently: A: %s | B: %s" % (k, ra, rb))
-        if k.startswith("B") and "err=0" not in d.get("printA", ""):
-            evo_fail.append("%s: A's JSON printer failed on a B buffer: %s" % (k, d.get("printA")))
-        elif k.startswith("B"):
+        if k[0] in "BR" and "err=0" not in d.get("printA", ""):
+            evo_fail.append("%s: A's JSON printer failed on a B buffer: %s" % (k, d.get("printA", "")[:300]))
+        elif k[0] in "BR":
             # "prints it without error": what the old printer writes for members it does not know must still be JSON
             m = re.search(r"text=([0-9a-f]*)", d.get("printA", ""))
+            text = bytes.fromhex(m.group(1)[:len(m.group(1)) // 2 * 2]) if m else b"?"      # a crash can cut the line anywhere
             try:
                 import json as _json
-                _json.loads(bytes.fromhex(m.group(1)).decode("utf-8"))
+                doc = _json.loads(text.decode("utf-8"))
+                if k[0] == "R":      # R<N>.<mode>: Leaf, N members of kinds A does not know, Leaf
+                    N = int(k[1:].split(".")[0]); nruns += 1
+                    anys = doc.get("anys")
+                    if not (isinstance(anys, list) and len(anys) == N + 2 and all(x is None for x in anys[1:-1]) and anys[0] == {"v": 1} and anys[-1] == {"v": 2}):
+                        evo_fail.append("%s: A's printer does not print a run of %d union vector members of new kinds as nulls between the two known members: %s ..." % (k, N, str(anys)[:200]))
+                    if "file=same" not in d.get("printA", ""):
+                        evo_fail.append("%s: A's FILE printer fails or differs from the dynamic buffer printer: %s" % (k, d.get("printA", "")[:80]))
             except Exception as ex:
-                evo_fail.append("%s: A's JSON printer wrote text that is not JSON for a B buffer: %s (%s)" % (k, bytes.fromhex(m.group(1)).decode("latin1")[:300] if m else "?", ex))
+                evo_fail.append("%s: A's JSON printer wrote text that is not JSON for a B buffer: %s (%s)" % (k, text.decode("latin1")[:300], ex))
         if k.startswith("A") and "extra=5 present=0 tags=0 more=0 any2=0 ex=0 colors=0" not in d.get("newB", ""):
             evo_fail.append("%s: new fields not at their defaults when reading an A buffer with B: %s" % (k, d.get("newB")))
     if spec_fail or evo_fail:
@@ -143,7 +152,9 @@ def run(ctx):
                             "real runtime and by the model; every B-accepted buffer must be A-accepted and walked safely with A's reader. (2) generated code for a fixed pair "
                             "harness/evo/{a,b}.fbs: %d B-built variants (new fields, new union members in single unions and union vectors, new enum values) verified/read/"
                             "JSON-printed with A's generated code and compared field by field with B's reader; 1024 A-built variants verified/read with B's code "
-                            "(new fields at defaults)." % (npairs, nvar),
+                            "(new fields at defaults); union vectors with runs of 1..10000 consecutive members of kinds only B knows (struct, string, table) printed "
+                            "by A's printer to a growing buffer and to a FILE under ASan." % (npairs, nvar),
+                    "unknown_member_runs": nruns,
                     "pairs": npairs, "pair_lines": npair_lines, "accepted_lines": accB, "generated_variants": len(recs),
                     "traces_validated_against_impl": len(lines), "correspondence_disagreements": len(idx), "spec_oracle_failures": len(spec_fail) + len(evo_fail)})
     ctx.samples = [{"op": lines[1][:300], "c": a[1][:300], "model": b[1][:300]}] + [recs[k] for k in list(recs)[:2]]
